@@ -445,7 +445,7 @@ def definedness_obligations(K: SymK, path_facts):
         # facts assumed later on the path only narrow the inputs; the division must be defined for
         # every input that reaches it, i.e. under the facts at that point plus the unit's requires
         out.append(Obligation(f"{K.unit}/defined/denominator[{str(q)[:60]}]" + (f"[{cfg_str(K.cfg)}]" if K.cfg else "") + K.path,
-                              K.props, goal, list(path_facts), kind="defined",
+                              K.props, goal, list(facts_then), kind="defined",
                               note=f"denominator {q}"))
     return out
 
